@@ -72,11 +72,6 @@ HARNESSES = [
               "C4 D4 23 67) and Reader::new reads every field back (Reader::len = count written, codec = codec written)",
       functions=["Metadata::write_into", "Metadata::read_from", "Reader::new", "Reader::len", "Reader::compression_type"],
       bounds="all u64 offsets/counts, all 6 codec ids, all u8 levels"),
-    H("metadata::verif_h::c11_trailer_short_reads", ["C11", "C10"], kind="H", layer="L2", timeout=1200,
-      decides="Reader::new over a source that serves every read in symbolic pieces of 1..=8 bytes and reports up to 2 interruptions returns exactly "
-              "the fields of the trailer (V1 and V2), i.e. the same as over a whole-buffer source",
-      functions=["Reader::new", "Metadata::read_from", "byteorder read_u64/u8/u32", "std Read::read_exact"],
-      stubs=["ShortSrc: short-reading / interrupting Read+Seek (harness kit)"], bounds="file length 21..=24, any valid trailer; unwind 10"),
     H("metadata::verif_h::c16_open_io", ["C16"], kind="K", layer="L2", timeout=900,
       decides="opening performs 2 seeks and reads 22 (V2) / 21 (V1) bytes, all inside the last 22 bytes; into_cursor reads nothing",
       functions=["Reader::new", "Metadata::read_from", "Reader::into_cursor", "ReaderCursor::new"],
